@@ -138,7 +138,7 @@ func selfTestInto(c *Ctx) {
 	}
 	// negative variants: behaviour-preserving refactorings under /verif/refactors*/<id>/patch.diff must stay silent
 	var negIDs []string
-	for _, dir := range []string{"refactors", "refactors2", "refactors3", "refactors4", "refactors5", "refactors6"} {
+	for _, dir := range []string{"refactors", "refactors2", "refactors3", "refactors4", "refactors5", "refactors6", "refactors7"} {
 		ents, _ := os.ReadDir(filepath.Join(c.Home, dir))
 		for _, e := range ents {
 			if e.IsDir() {
